@@ -117,6 +117,8 @@ def cases(tier: str, seed: int) -> list[dict]:
     vias = ["memory", "file", "memory", "dask", "memory", "emsopen", "memory"]      # how the dataset is held (viafile.hold)
     for k, c in enumerate(out):
         c["w"] = dict(c["w"], via=vias[k % len(vias)])
+        if c["w"]["conv"] in ("cf1d", "cf2d") and k % 2 == 0 and c["w"]["via"] != "emsopen":
+            c["w"]["bind"] = "explicit"      # convention made by hand with latitude= / longitude= (worlds.bind)
     return out
 
 
